@@ -314,6 +314,12 @@ theorem C08_repeat_composeinfo (s : CI.CIState) : (CI.dumpsSt (CI.dumpsSt s).1).
   rw [e]
   exact CI.dumps_touched s.ci ht
 
+/-- **C08 repeat (composeinfo), any number of dumps.**  After `n` dumps in a row on one object (`CI.c8After n s`; each of them
+may have succeeded or failed half-way), the next dump writes exactly what the very first dump wrote (or raises what it raised):
+by induction on `n`, the object stays `Touched` (same sections, forced `is_layered` flags only) and the writer cannot tell. -/
+theorem C08_repeat_composeinfo_n (s : CI.CIState) (n : Nat) : (CI.dumpsSt (CI.c8After n s)).2 = (CI.dumpsSt s).2 :=
+  CI.c8_dumpsSt_of_touched (CI.c8_after_touched n s)
+
 /-- the stateful writer produces the text of the pure one (so every `C08_perm_composeinfo*` statement is about it too), and
 the object it leaves behind differs from the original only in `header.version` (old or current) and in forced
 `is_layered` flags of layered-product variants (`CI.Touched`) -/
@@ -540,31 +546,65 @@ theorem C08_repeat_manifests (k : Mf.Kind) (m : Mf.Manifest) : (Mf.dumps k (Mf.d
 (`TI.serialize` takes the object and `main_variant`, returns a document, and has no other input or output) -/
 def TI.dumpText (t : TI.TreeInfo) (mv : Option Str) : Except Err Str := (TI.serialize t mv).map IniText.render
 
-/-- **C08 (treeinfo).**  Two trees with the same content (`TI.Same`: variant containers at every level, the platform set, the
-checksum table and the image tables in any order, path tables answering every lookup alike; `Proofs/C08TreeInfo.lean`) are
-written as the same bytes, and a dump that succeeds for one succeeds for the other.
-`TI.DictKeys`: top-level variant keys, checksum paths and the image names of a platform are pairwise distinct (they are keys of
-Python dicts).  `TI.MainVariantTop`: `main_variant` is `None` or the container key of a top-level variant (a UID or dashed path
-that designates a child is resolved by a first-match scan over the container and is outside this theorem).
-Route: the lookup-form writer specification and its converse (builder `treeinfo`: `serialize_spec`, `serialize_conv`,
-`render_eq_of_CE`); validators cannot tell the two trees apart (`Proofs/RulesAgree.lean`: the fields and hand-bound rules each
-generated class reads are COMPUTED from `Gen.allClasses`, the side conditions are `decide`d on the regenerated file). -/
-theorem C08_perm_treeinfo (t t' : TI.TreeInfo) (mv : Option Str) (hs : TI.Same t t') (hk : TI.DictKeys t)
-    (hmv : TI.MainVariantTop t mv) (b : Str) (h : TI.dumpText t mv = .ok b) : TI.dumpText t' mv = .ok b := by
+/-- `TI.dumpText` under an abstract "the described variant is found again" hypothesis -/
+theorem c8_dumpText_gen (t t' : TI.TreeInfo) (mv : Option Str) (hs : TI.Same t t') (hk : TI.DictKeys t)
+    (hget : TI.c8GetTransfer t t' mv) (b : Str) (h : TI.dumpText t mv = .ok b) : TI.dumpText t' mv = .ok b := by
   unfold TI.dumpText at h ⊢
   cases hd : TI.serialize t mv with
   | error e => rw [hd] at h; cases h
   | ok d =>
     rw [hd] at h
-    obtain ⟨d', h', hr⟩ := TI.perm_treeinfo hs hk hmv hd
+    obtain ⟨d', h', hr⟩ := TI.c8_perm_treeinfo_gen hs hk hget hd
     rw [h']
     simp only [Except.map] at h ⊢
     rw [hr]; exact h
 
+/-- **C08 (treeinfo), every `main_variant`.**  Two trees with the same content (`TI.Same`: variant containers at every level,
+the platform set, the checksum table and the image tables in any order, path tables answering every lookup alike;
+`Proofs/C08TreeInfo.lean`) are written as the same bytes FOR EVERY `main_variant` argument, and a dump that succeeds for one
+succeeds for the other.
+Model domain (`TI.DictKeys`): top-level variant keys, checksum paths and the image names of a platform are pairwise distinct
+(keys of Python dicts).  Side condition (`TI.c8Siblings`): at every level of the forest siblings are told apart by their
+container key AND by their UID.  The UID part is exact: `VariantBase.__getitem__` resolves a `main_variant` that is not a
+container key by a FIRST-MATCH scan for the UID, and with two siblings of one UID the bytes do depend on the insertion order
+(`C08_treeinfo_shared_uid_witness`, finding F44); for a `main_variant` that is `None` or a container key the UID part is not
+needed (`C08_perm_treeinfo_top_key`).
+Route: the lookup-form writer specification and its converse (builder `treeinfo`: `serialize_spec`, `serialize_conv`,
+`render_eq_of_CE`); validators cannot tell the two trees apart (`Proofs/RulesAgree.lean`: the fields and hand-bound rules each
+generated class reads are COMPUTED from `Gen.allClasses`, the side conditions are `decide`d on the regenerated file);
+`chosenKey`, `getItem`, `platformsStr`, `sortS` are invariant (`c8_getItem_congr`, `chosenKey_congr`, `platformsStr_congr`). -/
+theorem C08_perm_treeinfo (t t' : TI.TreeInfo) (mv : Option Str) (hs : TI.Same t t') (hk : TI.DictKeys t)
+    (hsib : TI.c8Siblings t.variants) (b : Str) (h : TI.dumpText t mv = .ok b) : TI.dumpText t' mv = .ok b :=
+  c8_dumpText_gen t t' mv hs hk (TI.c8_getTransfer_sib mv hs hsib) b h
+
+/-- the same for a `main_variant` that is `None` or the container key of a top-level variant, WITHOUT the UID condition -/
+theorem C08_perm_treeinfo_top_key (t t' : TI.TreeInfo) (mv : Option Str) (hs : TI.Same t t') (hk : TI.DictKeys t)
+    (hmv : TI.MainVariantTop t mv) (b : Str) (h : TI.dumpText t mv = .ok b) : TI.dumpText t' mv = .ok b :=
+  c8_dumpText_gen t t' mv hs hk (TI.c8_getTransfer_top hs hk.tops hmv) b h
+
+/-- both directions: the two dumps write the same bytes or BOTH fail (which exception a failing dump raises can depend on
+the order: the first offending section wins) -/
+theorem C08_perm_treeinfo_iff (t t' : TI.TreeInfo) (mv : Option Str) (hs : TI.Same t t') (hk : TI.DictKeys t)
+    (hsib : TI.c8Siblings t.variants) :
+    (∀ b, TI.dumpText t mv = .ok b ↔ TI.dumpText t' mv = .ok b) ∧
+    ((∃ e, TI.dumpText t mv = .error e) ↔ (∃ e, TI.dumpText t' mv = .error e)) := by
+  have fwd := fun b => C08_perm_treeinfo t t' mv hs hk hsib b
+  have bwd := fun b => C08_perm_treeinfo t' t mv hs.symm (TI.c8_dictKeys_congr hs hk) (TI.c8_siblings_congr hs.variants hsib) b
+  refine ⟨fun b => ⟨fwd b, bwd b⟩, ?_, ?_⟩
+  · rintro ⟨e, he⟩
+    cases h' : TI.dumpText t' mv with
+    | error e' => exact ⟨e', rfl⟩
+    | ok b => rw [bwd b h'] at he; cases he
+  · rintro ⟨e, he⟩
+    cases h' : TI.dumpText t mv with
+    | error e' => exact ⟨e', rfl⟩
+    | ok b => rw [fwd b h'] at he; cases he
+
 /-- document level, with the success transfer made explicit -/
 theorem C08_perm_treeinfo_doc (t t' : TI.TreeInfo) (mv : Option Str) (hs : TI.Same t t') (hk : TI.DictKeys t)
-    (hmv : TI.MainVariantTop t mv) (d : Ini) (h : TI.serialize t mv = .ok d) :
-    ∃ d', TI.serialize t' mv = .ok d' ∧ IniText.render d' = IniText.render d := TI.perm_treeinfo hs hk hmv h
+    (hsib : TI.c8Siblings t.variants) (d : Ini) (h : TI.serialize t mv = .ok d) :
+    ∃ d', TI.serialize t' mv = .ok d' ∧ IniText.render d' = IniText.render d :=
+  TI.c8_perm_treeinfo_gen hs hk (TI.c8_getTransfer_sib mv hs hsib) h
 
 namespace TI
 def wVar (id : Str) (paths : List (Str × Str)) (kids : List Variant) : Variant := .mk id id id id tVariant paths kids
@@ -598,15 +638,39 @@ theorem wT_same : Same wT1 wT2 := by
     · by_cases h2 : k%"repository" = f <;> simp [h1, h2]
 theorem wT_keys : DictKeys wT1 := ⟨by decide, by decide, fun p hp => by cases hp⟩
 theorem wT_mv : MainVariantTop wT1 none := fun m hm => by cases hm
+theorem wT_sib : c8Siblings wT1.variants := by
+  refine ⟨by decide, by decide, ?_⟩
+  simp [wT1, wTree, wVar, c8SibL, c8SibV]
+
+/-! two top-level variants with ONE UID (`A-b`), filed under their ids, of different types (so that their sections
+`[variant-A-b]` and `[addon-A-b]` are distinct and the tree IS written), in the two insertion orders -/
+def wSv (id type pk : Str) : Variant := .mk id id k%"A-b" id type [(k%"packages", pk)] []
+def wS1 : TreeInfo := wTree [] [wSv k%"X" tVariant k%"pkgs-X", wSv k%"Y" tAddon k%"pkgs-Y"] []
+def wS2 : TreeInfo := wTree [] [wSv k%"Y" tAddon k%"pkgs-Y", wSv k%"X" tVariant k%"pkgs-X"] []
+theorem wS_same : Same wS1 wS2 :=
+  ⟨rfl, rfl, rfl, rfl, rfl, rfl, fun _ => Iff.rfl, .swap _ _ _, List.Perm.refl _, PermR.refl (fun p => ⟨rfl, List.Perm.refl _⟩) _,
+   rfl, rfl, rfl, rfl⟩
+theorem wS_keys : DictKeys wS1 := ⟨by decide, by decide, fun p hp => by cases hp⟩
 end TI
 
 /-- the hypotheses of `C08_perm_treeinfo` hold for a genuine rearrangement of a tree that IS written -/
 example : ∃ b, TI.dumpText TI.wT1 none = .ok b ∧ TI.dumpText TI.wT2 none = .ok b := by
   cases h : TI.dumpText TI.wT1 none with
-  | ok b => exact ⟨b, rfl, C08_perm_treeinfo _ _ none TI.wT_same TI.wT_keys TI.wT_mv b h⟩
+  | ok b => exact ⟨b, rfl, C08_perm_treeinfo _ _ none TI.wT_same TI.wT_keys TI.wT_sib b h⟩
   | error e =>
     have : (match TI.dumpText TI.wT1 none with | .ok _ => true | .error _ => false) = true := by decide +kernel
     rw [h] at this; cases this
+
+/-- **Two siblings with one UID (the region `C08_perm_treeinfo` excludes): the bytes DO depend on the insertion order.**
+`wS1` and `wS2` are the same content (`TI.Same`), keys are distinct (`TI.DictKeys`), both are written for
+`main_variant = "A-b"` - a UID, not a container key - and the texts differ: `[general] packagedir` is that of whichever
+variant the first-match UID scan of `VariantBase.__getitem__` meets first.  Replayed on the real library: finding F44. -/
+theorem C08_treeinfo_shared_uid_witness :
+    TI.Same TI.wS1 TI.wS2 ∧ TI.DictKeys TI.wS1 ∧ ¬ TI.c8Siblings TI.wS1.variants ∧
+    (match TI.dumpText TI.wS1 (some k%"A-b"), TI.dumpText TI.wS2 (some k%"A-b") with
+     | .ok a, .ok b => a != b
+     | _, _ => false) = true :=
+  ⟨TI.wS_same, TI.wS_keys, fun h => absurd h.2.1 (by decide), by decide +kernel⟩
 
 /-! ## treeinfo: repeated dumps -/
 
@@ -654,5 +718,25 @@ example : ∃ b, CI.dumps CI.wC1 = .ok b ∧ CI.dumps CI.wC2 = .ok b := by
   | error e =>
     have : CI.isOk (CI.dumps CI.wC1) = true := by decide +kernel
     rw [h] at this; cases this
+
+namespace CI
+/-- a compose with a layered-product variant whose release still says `is_layered = False`, header version `0.9` -/
+def wLP : Variant :=
+  .mk k%"LP" k%"LP" k%"LP" k%"n" layeredProduct [k%"x86_64"] []
+    (some { name := k%"L", short := k%"L", version := k%"1", type := k%"ga", isLayered := false, internal := false }) []
+def wSt : CIState := { version := k%"0.9", ci := wCI [wLP] }
+end CI
+
+/-- non-vacuity: the dump of `wSt` succeeds and DOES change the object (header version and the flag), the changed object is not
+the original, and the next dumps write the same text -/
+example :
+    (match CI.dumpsSt CI.wSt with
+     | (s', .ok _) => s'.version == CI.currentVersion && s'.version != CI.wSt.version &&
+         (match s'.ci.variants with
+          | [v] => (v.release.map (·.isLayered)) == some true
+          | _ => false)
+     | _ => false) = true ∧
+    (CI.dumpsSt (CI.c8After 3 CI.wSt)).2 = (CI.dumpsSt CI.wSt).2 :=
+  ⟨by decide +kernel, C08_repeat_composeinfo_n CI.wSt 3⟩
 
 end PM
